@@ -581,8 +581,6 @@ package genetics
 //@ ghost gCloneGenome Int
 // The operators applied to babies enter with the effect derived from their bodies (modification analysis): none of them touches an
 // Organism or a Species, which is all this contract needs of them.
-//@ func (*Genome).mutateConnectSensors
-//@   reason effect derived from the body (modification analysis); no functional claim
 //@ func (*Genome).mutateAllNonstructural
 //@   reason effect derived from the body (modification analysis); no functional claim
 // The interface nodes of a genome: input, bias and output neurons.
@@ -650,7 +648,7 @@ package genetics
 //@   props C10 C02
 //@   mode nosafety
 //@   abstracts select
-//@   assume_pre duplicate, mutateAddNode, mutateAddLink, mutateLinkWeights, mateMultipoint, mateMultipointAvg, mateSinglePoint, compatibility, Int31n
+//@   assume_pre duplicate, mutateAddNode, mutateAddLink, mutateConnectSensors, mutateLinkWeights, mateMultipoint, mateMultipointAvg, mateSinglePoint, compatibility, Int31n
 //@   requires s != nil && pop != nil && len(s.Organisms) > 0 && (forall i :: 0 <= i && i < len(s.Organisms) ==> s.Organisms[i] != nil && s.Organisms[i].Genotype != nil)
 //@   requires [quotaCoversSuperChamp] 0 <= s.Organisms[0].superChampOffspring && s.Organisms[0].superChampOffspring <= s.ExpectedOffspring
 //@   requires neat.ErrNEATOptionsNotFound != nil
@@ -904,3 +902,42 @@ package genetics
 //@     invariant -1 <= #idx && sameSlice(p.Species, old(p.Species)) && unchanged(p.Species) && fresh(speciesToKeep)
 //@     invariant [total] totalOrganisms == len(p.Organisms) && (totalExpected < totalOrganisms && finalExpected >= totalOrganisms ==> sumField(p.Species, heapOf(Species.ExpectedOffspring)) >= totalOrganisms) && (totalExpected < totalOrganisms && finalExpected < totalOrganisms ==> bestSpecies != nil && bestSpecies.ExpectedOffspring == totalOrganisms && (forall i :: 0 <= i && i < len(p.Species) && p.Species[i] != bestSpecies ==> p.Species[i].ExpectedOffspring == 0))
 //@     invariant [kept] forall i :: 0 <= i && i < len(speciesToKeep) ==> speciesToKeep[i] != nil && speciesToKeep[i].ExpectedOffspring > 0
+
+//@ ghost gTheSensor Int
+// connect-sensors: genes are only added from ONE sensor that no gene left before, and only to non-sensor nodes; each new gene carries
+// a number drawn during this call or the number of a recorded (non-recurrent) new-link innovation for the same pair.
+//@ func (*Genome).mutateConnectSensors
+//@   props C05 C03
+//@   mode nosafety
+//@   assume_pre Intn
+//@   requires genomeShape(g) && !isNilIface(innovations)
+//@   set gTheSensor = disconnectedSensors[result] @ after 1 Intn
+//@   assert [fromTheSensor] arg1 != nil && fresh(arg1) && arg1.Link.InNode == gTheSensor && arg1.Link.OutNode == output && !sensorNode(output) && !arg1.Link.IsRecurrent && arg1.IsEnabled @ before 1 geneInsert
+//@   assert [novelNumber] !innovationFound ==> sel(gIssued, arg1.InnovationNum) && !sel(old(gIssued), arg1.InnovationNum) @ before 1 geneInsert
+//@   assert [matchedNumber] innovationFound ==> arg1.InnovationNum == inn.InnovationNum && inn.InNodeId == arg1.Link.InNode.Id && inn.OutNodeId == output.Id && !inn.IsRecurrent @ before 1 geneInsert
+//@   ensures [nodesKept] sameSlice(g.Nodes, old(g.Nodes)) && unchanged(g.Nodes)
+//@   ensures [onlyAdds] len(g.Genes) >= old(len(g.Genes))
+//@   ensures_local [unconnectedSensor] result0 ==> sensor != nil && sensorNode(sensor) && (forall i :: 0 <= i && i < old(len(g.Genes)) ==> old(g.Genes[i]).Link.InNode.Id != sensor.Id)
+//@   loop 1:
+//@     invariant -1 <= #idx && #idx < len(g.Nodes) && fresh(sensors) && fresh(outputs) && allocated(sensors) && allocated(outputs) && base(sensors) != base(outputs) && sameSlice(g.Nodes, old(g.Nodes)) && nonNilNodes(g.Nodes)
+//@     invariant [oldMem] forall b :: wasAllocated(b) ==> Mem[*network.NNode][b] == old(Mem[*network.NNode][b])
+//@     invariant [classes] (forall k :: 0 <= k && k < len(sensors) ==> sensors[k] != nil && sensorNode(sensors[k])) && (forall k :: 0 <= k && k < len(outputs) ==> outputs[k] != nil && !sensorNode(outputs[k]))
+//@   loop 2:
+//@     invariant -1 <= #idx && #idx < len(sensors) && fresh(disconnectedSensors) && allocated(disconnectedSensors) && fresh(sensors) && fresh(outputs) && allocated(sensors) && allocated(outputs) && base(disconnectedSensors) != base(sensors) && base(disconnectedSensors) != base(outputs) && sameSlice(g.Genes, old(g.Genes)) && unchanged(g.Genes) && sameSlice(g.Nodes, old(g.Nodes))
+//@     invariant [oldMem] forall b :: wasAllocated(b) ==> Mem[*network.NNode][b] == old(Mem[*network.NNode][b])
+//@     invariant [classes] (forall k :: 0 <= k && k < len(sensors) ==> sensors[k] != nil && sensorNode(sensors[k])) && (forall k :: 0 <= k && k < len(outputs) ==> outputs[k] != nil && !sensorNode(outputs[k]))
+//@     invariant [unconnected] forall k :: 0 <= k && k < len(disconnectedSensors) ==> disconnectedSensors[k] != nil && sensorNode(disconnectedSensors[k]) && (forall i :: 0 <= i && i < len(g.Genes) ==> g.Genes[i].Link.InNode.Id != disconnectedSensors[k].Id)
+//@   loop 3:
+//@     invariant -1 <= #idx && !connected && sensor != nil && sensorNode(sensor) && sameSlice(g.Genes, old(g.Genes)) && unchanged(g.Genes)
+//@     invariant forall i :: 0 <= i && i <= #idx ==> g.Genes[i].Link.InNode.Id != sensor.Id
+//@     leave [scanned] !connected ==> (forall i :: 0 <= i && i < len(g.Genes) ==> g.Genes[i].Link.InNode.Id != sensor.Id)
+//@   loop 4:
+//@     invariant -1 <= #idx && #idx < len(outputs) && fresh(outputs) && len(g.Genes) >= old(len(g.Genes)) && (!linkAdded ==> sameSlice(g.Genes, old(g.Genes))) && sameSlice(g.Nodes, old(g.Nodes)) && nonNilGenes(g.Genes) && sortedLE(g.Genes) && geneLinksWF(g.Genes)
+//@     invariant [oldMem] forall b :: wasAllocated(b) ==> Mem[*network.NNode][b] == old(Mem[*network.NNode][b])
+//@     invariant [issuedGrows] forall k :: sel(old(gIssued), k) ==> sel(gIssued, k)
+//@     invariant [sensorKept] sensor != nil && sensor == gTheSensor && sensorNode(sensor) && (forall i :: 0 <= i && i < old(len(g.Genes)) ==> old(g.Genes[i]).Link.InNode.Id != sensor.Id)
+//@     invariant [outputsKept] forall k :: 0 <= k && k < len(outputs) ==> outputs[k] != nil && !sensorNode(outputs[k])
+//@   loop 5:
+//@     invariant -1 <= #idx
+//@   loop 6:
+//@     invariant -1 <= #idx
